@@ -7,6 +7,7 @@ package tractserver
 // stamps, busy table, failure map) away and builds a new one over the same disk.
 
 import (
+	"context"
 	"encoding/binary"
 	"sort"
 	"sync"
@@ -28,6 +29,25 @@ func verifOpms() (*server.OpMetric, *server.OpMetric) {
 		verifOpmSrv = server.NewOpMetric("verif_ts_srv_rpc", "rpc")
 	})
 	return verifOpmCtl, verifOpmSrv
+}
+
+// verifDisk is MemDisk with one test-double limitation removed: MemDisk.Read slices
+// files[fd][off:] and panics when off is beyond the end of the file, where a real disk
+// (Manager/ChecksumFile) reports a zero-length read at EOF.  Everything else is MemDisk.
+type verifDisk struct{ *MemDisk }
+
+func (d verifDisk) Read(ctx context.Context, f interface{}, b []byte, off int64) (int, core.Error) {
+	d.MemDisk.lock.Lock()
+	if d.MemDisk.fds != nil {
+		if fd, ok := f.(uint32); ok {
+			if _, open := d.MemDisk.open[fd]; open && off > int64(len(d.MemDisk.files[fd])) {
+				d.MemDisk.lock.Unlock()
+				return 0, core.NoError
+			}
+		}
+	}
+	d.MemDisk.lock.Unlock()
+	return d.MemDisk.Read(ctx, f, b, off)
 }
 
 // VerifTS is one in-process tractserver.
@@ -55,7 +75,7 @@ func VerifNewTS(id core.TractserverID, tt TractserverTalker) *VerifTS {
 func (t *VerifTS) boot() {
 	cfg := t.cfg
 	t.Store = NewStore(t.tt, NewMetadataStore(), &cfg)
-	if err := t.Store.AddDisk(t.Disk); err != nil {
+	if err := t.Store.AddDisk(verifDisk{t.Disk}); err != nil {
 		panic("verif: AddDisk: " + err.Error())
 	}
 	// After a restart the id is loaded from the meta tract on the disk; SetID then just returns it.
